@@ -74,6 +74,9 @@ def specLookup (ch : List Frame) (s : Slot) : Option Ent :=
   | .ty => chainGet (·.t) ch (lower s.name)
   | .pr => chainGet (·.p) ch (lower s.name)
   | .pa => chainGetPA ch (lower s.name)
+  -- the name of a deferred binding is a binding name (local to the type); it has no
+  -- implementation in that type and denotes no procedure, whatever is visible under the name
+  | .bn => none
 
 def specPhase (ph : Phase) (ch : List Frame) : List Slot → Res
   | [] => []
